@@ -119,4 +119,37 @@ theorem C10_signature_lists_exactly (appId : String) (rows : List (String × Str
 /-- the source matches on the app id (read by the translator on every run) -/
 theorem C10_source_applied_migrations_key : DEvo.Generated.appliedMigrationsKey = "app_id" := by decide
 
+/-! ## who creates the tables of models that are new in the hand-over release -/
+
+/-- which value `EvolveAppTask.prepare` looks at to leave new models to the app's migrations: the upgrade method the
+stored signature had BEFORE the pending evolutions (`orig`), or the one AFTER them -/
+inductive Decider where
+  | orig | after
+  deriving DecidableEq, Repr
+
+/-- a table of a new model exists after the run if the package created it, or if a migration that creates it was
+EXECUTED (not merely recorded) in this run.  `createdByMigration` is the index of the migration that creates the
+model in the chain. -/
+def tableExists (d : Decider) (origIsMigrations afterIsMigrations : Bool) (executed : List Nat)
+    (createdByMigration : Nat) : Bool :=
+  let leftToMigrations := match d with
+    | .orig => origIsMigrations
+    | .after => afterIsMigrations
+  !leftToMigrations || executed.contains createdByMigration
+
+/-- **a model that enters the app in the hand-over release gets its table**: the app was on evolutions before the run
+(so the package creates the tables of new models), whatever prefix of the chain is only recorded -/
+theorem C10_handover_new_model_gets_table (st : MigState) (s c : Nat) :
+    tableExists .orig false true (toExecute st s) c = true := by
+  simp [tableExists]
+
+/-- the source decides by the method before the run (read by the translator on every run) -/
+theorem C10_source_new_models_by_orig_method : DEvo.Generated.newModelsDecidedBy = "orig_upgrade_method" := by decide
+
+/-- deciding by the method AFTER the pending evolutions leaves the model to a migration that is named as already
+applied: recorded, never executed, and nobody creates the table -/
+theorem C10_cex_new_model_left_to_recorded_migration :
+    tableExists .after false true (toExecute ⟨2, []⟩ 1) 0 = false ∧ tableExists .orig false true (toExecute ⟨2, []⟩ 1) 0 = true := by
+  decide
+
 end DEvo.Props.C10
